@@ -431,8 +431,8 @@ func runCase(res *vh.Result, b *built, cs *caseIn, minPar int, cnt map[string]in
 					sec = "insecure"
 				}
 				rootTag := ""
-				if b.signer == "." {
-					rootTag = "|root-zone" // ce == "." has its own code path (no wildcard check)
+				if b.signer == "." && strings.HasPrefix(truth, "wildcard") {
+					rootTag = "|root-zone" // closest encloser "." has its own code path (no wildcard check)
 				}
 				res.Violate(fmt.Sprintf("%s|%s|claim=%s|truth=%s%s|%s%s", cs.F, o.entry, o.claim, truth, b.reason(q.N, truth), sec, rootTag),
 					fmt.Sprintf("%s accepted %s (%s) for %s %s but the zone says %s  [zone %s as %s, %s records of %v, pollution %v]",
